@@ -3,7 +3,9 @@ EXTENDS Clock
 K(k, h) == [k |-> k, h |-> h]
 N == K("N", 0)
 ZK == [chicago  |-> {N, K("S", 2), K("F", 1)},
+       newyork  |-> {N, K("S", 2), K("F", 1)},       \* same offsets and transition dates as Havana, another hour
        london   |-> {N, K("S", 1), K("F", 1)},
        havana   |-> {N, K("S", 0), K("F", 0)},
        saopaulo |-> {N, K("S", 0), K("F", 23)}]
+TW == [havana |-> "newyork", newyork |-> "havana"]
 =============================================================================
